@@ -128,6 +128,7 @@ CHECKS = {
         "budget": {"quick": 40, "thorough": 600},
         "min_histories": {"quick": 10000, "thorough": 300000},
         "unit": "generated command rounds + differential histories + hostile-frame histories",
+        "aux": "miri_status",
         "required_events": ["differential_history", "hostile_history", "hostile_frame_error_reply", "hostile_connection_closed", "hostile_member_connection_cleaned_up"],
         "min_events": {"quick": {"differential_history": 8, "hostile_history": 8}, "thorough": {"differential_history": 150, "hostile_history": 150}},
         "rule": ("(a) Generated rounds: one structure-aware value of each of the 45 SDK commands (numeric/named identifiers of length 1,2,3,..,255, every partitioning kind, polling strategy, "
@@ -138,7 +139,8 @@ CHECKS = {
                  "over TCP or HTTP (seeded choice) and read back over both transports by id and by name; answers must agree with each other and with what was sent. "
                  "(c) Hostile histories: unauthenticated, permission-less and group-member connections send random bytes, short/oversized length prefixes, valid codes with random payloads, "
                  "truncated and bit-flipped valid frames and unknown codes; each must be answered by an error or a closed connection, a healthy connection's model-checked log and the catalogue "
-                 "must stay unchanged and a dead member's group membership must disappear. evaluations = rounds + histories; distinct_nontrivial = distinct history seeds (each draws different values and frames)."),
+                 "must stay unchanged and a dead member's group membership must disappear. (d) Status codes: every code 1..20000 decodes (IggyError::from_code) to an error that encodes back to it or to the generic error; "
+                 "the same loop runs under Miri (verif/miri, cargo +nightly miri run) because as_code reads the enum discriminant through an unsafe pointer cast. evaluations = rounds + histories; distinct_nontrivial = distinct history seeds (each draws different values and frames)."),
         "assumptions": COMMON_ASSUMPTIONS + ["The HTTP representation of a consumer carries no kind (consumer groups are a connection-oriented feature the HTTP API does not offer): group consumers are exercised over TCP only.",
                                              "A panic confined to the hostile connection's own task counts as 'a closed connection' (reported as a note), as the statement allows.",
                                              "Frames whose length prefix promises more bytes than are sent leave the server waiting for the rest: the hostile client then closes the socket; length prefixes above 16 MiB are not sent (allocation of the announced size is C11's/C06's resource concern, not agreement)."],
